@@ -28,6 +28,7 @@ func TestCheck(t *testing.T) {
 	run.Rule("Two drivers over the real reactive package (reactive.WriteThenReadDelay seeded per scenario: 0 in ~40%, else 0.3-2 ms; minRerunInterval 200-1000us). " +
 		"Cached children can hang off a 'switch' cell (used only while its version is odd), so cache keys drop out of a computation - the child is released while possibly still cached - and come back; the matrix base workload switches two such children off, changes their leaves and switches them on again. " +
 		"Non-reactive readers (reactive.AddDependency with a context without rerunner) read shared cells concurrently with the rerunners, and some compute functions spawn a goroutine that outlives its run and calls AddDependency with the old context after the computation was superseded, failed or stopped (both are already-released dependants; before such a call the monitor notes whether the resource has a zero-holder moment, in which case thunder may legitimately release it). " +
+		"Some optional cached children are requested, in early runs, through reactive.Cache with a derived context that is already cancelled or is cancelled a few microseconds into the call; the error is tolerated and later runs use the live context again. " +
 		"When the delay is non-zero, Stops are aimed at the write-then-read delay of a re-run (write to a cell the rerunner reads, sleep part of the delay, Stop). " +
 		"TARGETED: the complete matrix {19 reactive/rerunner/cache hook points} x {invalidate-of-a-read-cell, strobe, Stop, double invalidate, restrobe = [make rerunner 0 re-run and register the strobed cell afresh, wait for that run, bump + Strobe the same long-lived resource again; at reactive.strobe.snapshot this is aimed at the last strobe pass of the scenario]} x {visit 1..3} x {alwaysSpawnGoroutine false,true}: " +
 		"the action is started at the k-th visit of the point and the visitor is held until the action's goroutine passed reactive.invalidate.unlocked / reactive.strobe.snapshot / rerunner.stop.cancelled (2 ms fallback); " +
